@@ -423,3 +423,66 @@ func VerifC10ChainUnionDefault() {
 	}
 	v.Assert(v.DeepEqual(foo.Type.Struct.Fields[0].Type.Default, any(dflt)), "C10: the default a union of constants declares is altered or dropped by the language's chain")
 }
+
+// VerifC06GoEnumObjectNames: enum OBJECTS whose own name is not UpperCamelCase (sort_order, refresh-mode, foo):
+// Go members must still be prefixed with the Go type name.
+func VerifC06GoEnumObjectNames() {
+	g := c06Gen(false)
+	name := v.Str("enumobject", "sort_order", "refresh-mode", "foo", "Mode")
+	p := ast.NewSchema("p", ast.SchemaMeta{})
+	p.AddObject(ast.NewObject("p", name, g.Enum()))
+	f := ast.NewStructField("order", ast.NewRef("p", name))
+	f.Required = v.Bool("required")
+	p.AddObject(ast.NewObject("p", "Holder", ast.NewStruct(f)))
+	out, err := chainOf("go").Process(ast.Schemas{p})
+	if err != nil {
+		v.Reach("chain returned an error")
+		return
+	}
+	v.Observe(out)
+	nfSchemas(out, nfByLang["go"])
+}
+
+// c06NullOrderRun: `T | null` and `null | T` both mean "optional T": after the chain the position holds T
+// (its kind) marked nullable, whichever order the two branches were written in.
+func c06NullOrderRun(lang string) {
+	var t ast.Type
+	switch v.Choose(3) {
+	case 0:
+		t = ast.String()
+	case 1:
+		t = ast.NewRef("p", "Bar")
+	default:
+		t = ast.NewArray(ast.String())
+	}
+	var u ast.Type
+	if v.Bool("nullfirst") {
+		u = ast.NewDisjunction(ast.Types{ast.Null(), t})
+	} else {
+		u = ast.NewDisjunction(ast.Types{t, ast.Null()})
+	}
+	f := ast.NewStructField("maybe", u)
+	f.Required = v.Bool("required")
+	p := ast.NewSchema("p", ast.SchemaMeta{})
+	p.AddObject(ast.NewObject("p", "Foo", ast.NewStruct(f)))
+	c06Structs(p)
+	out, err := chainOf(lang).Process(ast.Schemas{p})
+	if err != nil {
+		v.Reach("chain returned an error")
+		return
+	}
+	v.Observe(out)
+	nfSchemas(out, nfByLang[lang])
+	foo, ok := out.LocateObject("p", "Foo")
+	if !ok || !foo.Type.IsStruct() || len(foo.Type.Struct.Fields) != 1 {
+		v.Assert(false, "C06: the chain lost the object or its field")
+		return
+	}
+	got := foo.Type.Struct.Fields[0].Type
+	v.Assert(got.Kind == t.Kind && got.Nullable, "C06: a two-branch union with null did not become the nullable other branch")
+}
+
+func VerifC06GoNullOrder()     { c06NullOrderRun("go") }
+func VerifC06JavaNullOrder()   { c06NullOrderRun("java") }
+func VerifC06PHPNullOrder()    { c06NullOrderRun("php") }
+func VerifC06PythonNullOrder() { c06NullOrderRun("python") }
